@@ -39,6 +39,11 @@ OpProbes ==
          : e \in { Bin("+", V("s"), StrL("cd")), FStr(<<T("n is "), V("n"), T("!")>>), FStr(<<V("s"), V("s")>>), Bin("+", FStr(<<T("x"), V("n")>>), V("s")) } }
   \cup { Probe("ifexpr", <<>>, <<DI("a", p)>>, <<Def("z", TRUE, "Str", IfE(Bin(">", V("a"), I(3)), StrL("big"), StrL("small"))), P(V("z")),
                                                  Def("w", TRUE, "Int", IfE(Bin("=", V("a"), I(3)), I(1), IfE(Bin("<", V("a"), I(3)), I(2), I(3)))), P(V("w"))>>, FALSE) : p \in {1, 3, 5} }
+  \* the block form of the conditional as right-hand side of a definition (typed, untyped, tuple of targets)
+  \cup { Probe("ifexpr-block", <<>>, <<DI("a", p)>>, <<Def("z", TRUE, ty, IfEB(Bin(">", V("a"), I(3)), StrL("big"), StrL("small"))), P(V("z"))>>, FALSE) : p \in {1, 5}, ty \in {"Str", ""} }
+  \cup { Probe("ifexpr-block-tuple", <<>>, <<DI("a", p)>>, <<DefTup(<<"m", "n">>, TRUE, IfEB(Bin("<", V("a"), I(3)), TupL(<<I(1), StrL("s")>>), TupL(<<I(2), StrL("t")>>))),
+                                                             P(Bin("+", V("m"), I(1))), Def("q", TRUE, "Str", V("n")), P(V("q"))>>, FALSE) : p \in {1, 5} }
+         \* (print(n) directly, or a second block-form definition before this one, is not inferable today; the inline form is)
   \cup { Probe("default", <<>>, <<Def("n", TRUE, "Int?", e), DI("d", 7)>>, <<Def("w", TRUE, "Int", QDef(V("n"), V("d"))), P(V("w"))>>, FALSE) : e \in {NoneL, I(4)} }
   \cup { Probe("collections", <<>>, <<Def("l", TRUE, "", ListL(<<I(4), I(5), I(6)>>))>>,
                <<P(Index(V("l"), I(1))), P(V("l")), DefTup(<<"p", "q">>, TRUE, TupL(<<I(1), StrL("s")>>)), P(V("q")), P(V("p"))>>, FALSE) }
@@ -86,6 +91,17 @@ FunProbes ==
       Probe("return-in-loop", <<Fun("first_over", <<Param("k", "Int", Absent)>>, "Int", <<>>, <<For("i", Range(I(0), I(10), FALSE, Absent), <<If(Bin(">", Bin("*", V("i"), V("i")), V("k")), <<Ret(V("i"))>>, <<>>)>>), Expr(Neg(I(1)))>>)>>, <<>>,
             <<P(Call("first_over", <<I(10)>>)), P(Call("first_over", <<I(200)>>))>>, FALSE),
       Probe("global-read", <<DI("factor", 3), Fun("scaled", <<Param("x", "Int", Absent)>>, "Int", <<>>, <<Expr(Bin("*", V("x"), V("factor")))>>)>>, <<>>, <<P(Call("scaled", <<I(5)>>))>>, FALSE),
+      \* functions as values: callable parameter types (one, two and no parameters), anonymous functions as arguments, reading a global / a local
+      Probe("higher-order", <<Fun("apply", <<Param("g", "Int -> Int", Absent), Param("x", "Int", Absent)>>, "Int", <<>>, <<Expr(Call("g", <<V("x")>>))>>)>>, <<>>,
+            <<Def("r", TRUE, "Int", Call("apply", <<Lam(<<Param("y", "Int", Absent)>>, Bin("+", V("y"), I(1))), I(4)>>)), P(V("r")),
+              Def("t", TRUE, "Int", Call("apply", <<Lam(<<Param("y", "Int", Absent)>>, Bin("*", V("y"), V("y"))), Call("apply", <<Lam(<<Param("w", "Int", Absent)>>, Bin("-", V("w"), I(1))), I(4)>>)>>)), P(V("t"))>>, FALSE),
+      Probe("higher-order-two", <<Fun("comb", <<Param("g", "(Int, Int) -> Int", Absent)>>, "Int", <<>>, <<Expr(Call("g", <<I(2), I(3)>>))>>)>>, <<>>,
+            <<Def("r", TRUE, "Int", Call("comb", <<Lam(<<Param("y", "Int", Absent), Param("z", "Int", Absent)>>, Bin("-", V("y"), V("z")))>>)), P(V("r"))>>, FALSE),
+      Probe("higher-order-none", <<DI("k", 10), Fun("run", <<Param("g", "() -> Int", Absent)>>, "Int", <<>>, <<Expr(Call("g", <<>>))>>)>>, <<>>,
+            <<Def("r", TRUE, "Int", Call("run", <<Lam(<<>>, I(3))>>)), P(V("r")), Def("u", TRUE, "Int", Call("run", <<Lam(<<>>, Bin("+", V("k"), I(1)))>>)), P(V("u"))>>, FALSE),
+      Probe("higher-order-local", <<Fun("apply", <<Param("g", "Int -> Int", Absent), Param("x", "Int", Absent)>>, "Int", <<>>, <<Expr(Call("g", <<V("x")>>))>>),
+                                    Fun("outer", <<Param("b", "Int", Absent)>>, "Int", <<>>, <<Def("c", TRUE, "Int", Bin("*", V("b"), I(2))), Expr(Call("apply", <<Lam(<<Param("y", "Int", Absent)>>, Bin("+", V("y"), V("c"))), V("b")>>))>>)>>, <<>>,
+            <<Def("r", TRUE, "Int", Call("outer", <<I(5)>>)), P(V("r"))>>, FALSE),
       Probe("string-function", <<Fun("greet", <<Param("who", "Str", Absent)>>, "Str", <<>>, <<Expr(FStr(<<T("hi "), V("who")>>))>>)>>, <<>>, <<P(Call("greet", <<StrL("bob")>>))>>, FALSE) }
 
 ----------------------------------------------------------------------------------------
@@ -135,6 +151,11 @@ ErrorProbes ==
       Probe("handle-return-arm", Errs \o <<SafeFun(ArmsReturn)>>, <<>>, Calls("safe"), FALSE),
       Probe("handle-statement", Errs \o <<Fun("noisy", <<Param("x", "Int", Absent)>>, "Int", <<>>, <<Handle(Expr(Call("risky", <<V("x")>>)), <<HArm("AppErr", "err", <<P(StrL("app"))>>), HArm("OtherErr", "err", <<P(StrL("other"))>>)>>), Expr(I(1))>>)>>, <<>>, Calls("noisy"), FALSE),
       Probe("handle-as-value", Errs \o <<Fun("val", <<Param("x", "Int", Absent)>>, "Int", <<>>, <<Handle(Expr(Call("risky", <<V("x")>>)), <<HArm("AppErr", "err", <<Expr(Neg(I(7)))>>), HArm("OtherErr", "err", <<Expr(Neg(I(8)))>>)>>)>>)>>, <<>>, Calls("val"), FALSE),
+      \* arms that do not bind the exception (`_`), in value / return position and as a plain statement
+      Probe("handle-as-value-unbound-arm", Errs \o <<Fun("val", <<Param("x", "Int", Absent)>>, "Int", <<>>, <<Handle(Expr(Call("risky", <<V("x")>>)), <<HArm("AppErr", "_", <<Expr(Neg(I(7)))>>), HArm("OtherErr", "err", <<Expr(Neg(I(8)))>>)>>)>>)>>, <<>>, Calls("val"), FALSE),
+      Probe("handle-in-branch-unbound-arm", Errs \o <<Fun("val", <<Param("x", "Int", Absent)>>, "Int", <<>>,
+                <<If(Bin(">", V("x"), I(1000)), <<Expr(I(0))>>, <<Handle(Expr(Call("risky", <<V("x")>>)), <<HArm("AppErr", "_", <<Expr(Neg(I(7)))>>), HArm("OtherErr", "_", <<Expr(Neg(I(8)))>>)>>)>>)>>)>>, <<>>, Calls("val"), FALSE),
+      Probe("handle-statement-unbound-arm", Errs \o <<Fun("noisy", <<Param("x", "Int", Absent)>>, "Int", <<>>, <<Handle(Expr(Call("risky", <<V("x")>>)), <<HArm("AppErr", "_", <<P(StrL("app"))>>), HArm("OtherErr", "_", <<P(StrL("other"))>>)>>), Expr(I(1))>>)>>, <<>>, Calls("noisy"), FALSE),
       Probe("propagate-declared", Errs \o <<Fun("pass_on", <<Param("x", "Int", Absent)>>, "Int", <<"AppErr", "OtherErr">>, <<Expr(Bin("+", Call("risky", <<V("x")>>), I(1)))>>),
                                             Fun("outer", <<Param("x", "Int", Absent)>>, "Int", <<>>, <<Handle(Def("r", TRUE, "Int", Call("pass_on", <<V("x")>>)), <<HArm("Exception", "err", <<Expr(Neg(I(9)))>>)>>), Expr(V("r"))>>)>>, <<>>, Calls("outer"), FALSE) }
   \cup { Probe("uncaught", Errs, <<>>, <<P(StrL("before")), P(Call("risky", <<x>>)), P(StrL("after"))>>, FALSE) : x \in {I(3), I(0), Neg(I(1)), I(101)} }
